@@ -410,10 +410,17 @@ extern "C" void htp_verif_probe(const char *site, htp_connp_t *connp, long a, lo
     if (!ex || !site) return;
     ex->res->probes[site]++;
     if (!connp) return;
-    if (!strcmp(site, "decomp.restart") && a - b > 0) {
-        ex->res->probes["decomp.restart.prior_input"]++;
-        if (connp->out_tx) rec_for(ex, connp->out_tx).decomp_restart_lost_input = true;
-        if (connp->in_tx && connp->in_tx != connp->out_tx && connp->in_tx->request_content_encoding > HTP_COMPRESSION_NONE) rec_for(ex, connp->in_tx).decomp_restart_lost_input = true;
+    if (!strcmp(site, "decomp.restart")) {
+        // a restart re-feeds the chunk in hand only. What matters is how many body bytes of this message *earlier calls* had
+        // handed to the decompressors (an inflate attempt started by an earlier restart may have swallowed them undecided, so the
+        // current instance's total_in alone does not tell): measured by the monitor from the message length at the last return.
+        bool any = false; long most = 0;
+        if (g_cur_call) {
+            bool res_side = g_cur_call->kind == 'S' || g_cur_call->kind == 's';
+            htp_tx_t *tx = res_side ? connp->out_tx : connp->in_tx;
+            if (tx) { TxRec &r = rec_for(ex, tx); long prior = r.msglen_at_call_end[res_side ? 1 : 0]; if (prior > 0) { r.decomp_restart_lost_input = true; r.decomp_restart_prior = std::max(r.decomp_restart_prior, prior); any = true; most = prior; } }
+        }
+        if (any) { ex->res->probes["decomp.restart.prior_input"]++; if (most > 13) ex->res->probes["decomp.restart.prior_input_beyond_keepback"]++; }
         return;
     }
     if (!strcmp(site, "req.finalize.as_body") && connp->in_tx) rec_for(ex, connp->in_tx).lenient_site[0] = site;
@@ -597,6 +604,7 @@ static htp_cfg_t *build_cfg(const Plan &p) {
     if (c.has("u_decode")) htp_config_set_u_encoding_decode(cfg, HTP_DECODER_URLENCODED, (int) c.get("u_decode", 0));
     if (c.has("nul_enc_term")) htp_config_set_nul_encoded_terminates(cfg, HTP_DECODER_URLENCODED, (int) c.get("nul_enc_term", 0));
     if (c.has("nul_raw_term")) htp_config_set_nul_raw_terminates(cfg, HTP_DECODER_URLENCODED, (int) c.get("nul_raw_term", 0));
+    if (c.get("u_map", 0)) { htp_config_set_bestfit_map(cfg, HTP_DECODER_URLENCODED, (void *) SIM_BESTFIT); htp_config_set_bestfit_replacement_byte(cfg, HTP_DECODER_URLENCODED, SIM_BESTFIT_DEFAULT); }
     if (c.has("path_url_invalid")) htp_config_set_url_encoding_invalid_handling(cfg, HTP_DECODER_URL_PATH, (enum htp_url_encoding_handling_t) c.get("path_url_invalid", 0));
 
     // decoder swarm: every remaining decoder switch drawn from one integer (path context; urlencoded context on request)
@@ -783,6 +791,7 @@ static int do_call(Exec *ex, ConnState &c, int dir, const Chunk &ch, long &consu
     }
     g_in_data_call = false;
     g_cur_call = nullptr;
+    { htp_tx_t *tx = dir == 0 ? cp->in_tx : cp->out_tx; if (tx) rec_for(ex, tx).msglen_at_call_end[dir] = (long) (dir == 0 ? tx->request_message_len : tx->response_message_len); }
     if (buf) free(buf);   // the caller's chunk does not outlive the call: a later access is a use-after-free
     cr.rc = rc; cr.consumed = consumed; cr.ticks = g_seams.ticks - t0; cr.allocs = g_seams.n_total - a0;
     cr.conn_flags_after = cp->conn ? (unsigned) cp->conn->flags : 0; cr.ntx_after = cp->conn && cp->conn->transactions ? (int) htp_list_size(cp->conn->transactions) : -1; cr.next_tx_after = (int) cp->out_next_tx_index;
@@ -1216,6 +1225,7 @@ static void apply_decoder_cfg(htp_cfg_t *cfg, const Cfg &c) {
     if (c.has("u_decode")) htp_config_set_u_encoding_decode(cfg, HTP_DECODER_URLENCODED, (int) c.get("u_decode", 0));
     if (c.has("nul_enc_term")) htp_config_set_nul_encoded_terminates(cfg, HTP_DECODER_URLENCODED, (int) c.get("nul_enc_term", 0));
     if (c.has("nul_raw_term")) htp_config_set_nul_raw_terminates(cfg, HTP_DECODER_URLENCODED, (int) c.get("nul_raw_term", 0));
+    if (c.get("u_map", 0)) { htp_config_set_bestfit_map(cfg, HTP_DECODER_URLENCODED, (void *) SIM_BESTFIT); htp_config_set_bestfit_replacement_byte(cfg, HTP_DECODER_URLENCODED, SIM_BESTFIT_DEFAULT); }
 }
 
 bool run_urlenp_direct(const Cfg &c, const Bytes &input, const std::vector<size_t> &chunks, Dump &out, std::vector<Violation> &viol) {
